@@ -400,6 +400,31 @@ class ProgramVerifier:
                         found = (isinstance(v, ast.Call) and isinstance(v.func, ast.Name) and v.func.id == "tuple"
                                  and len(v.args) == 1 and isinstance(v.args[0], ast.Name) and v.args[0].id == fd["name"])
                 ob("array-is-tuple-copy", found, fd["name"], f"array field {fd['name']} is not stored as tuple({fd['name']})")
+        # packets report the family and action they were declared with, and write() serializes self (C02)
+        if decl.kind == "packet":
+            def ob2(kind, ok, detail, why):
+                out.append(Obligation(f"{name}:packet:{kind}:{detail}", "packet", [], z3.BoolVal(bool(ok)),
+                                      {"why": why, "property": "C02"}, f"{name}.<class>"))
+            for meth, enum_name, declared in (("family", "PacketFamily", decl.family), ("action", "PacketAction", decl.action)):
+                mi = ci.methods.get(meth)
+                ev = self.spec.enums[enum_name].by_name(declared) if enum_name in self.spec.enums else None
+                want = ev[2] if ev else None
+                ok = False
+                if mi is not None and want is not None:
+                    body = mi.body()
+                    ok = (mi.kind == "static" and len(body) == 1 and isinstance(body[0], ast.Return)
+                          and isinstance(body[0].value, ast.Attribute) and isinstance(body[0].value.value, ast.Name)
+                          and body[0].value.value.id == enum_name and body[0].value.attr == want)
+                ob2(meth, ok, declared, f"{meth}() does not return {enum_name}.{want}")
+            mi = ci.methods.get("write")
+            ok = False
+            if mi is not None:
+                body = mi.body()
+                ok = (len(body) == 1 and isinstance(body[0], ast.Expr) and isinstance(body[0].value, ast.Call)
+                      and ast.unparse(body[0].value) == f"{name}.serialize(writer, self)")
+            ob2("write", ok, "serialize-self", "write(writer) is not `<Class>.serialize(writer, self)`")
+            ob2("base", any(isinstance(b, ast.Name) and b.id == "Packet" for b in ci.node.bases), "Packet",
+                "packet class does not derive from Packet")
         # serialize must not store into data.* nor hand `data` itself to anything but nested serialize
         ser = ci.methods.get("serialize")
         if ser is not None:
